@@ -242,6 +242,9 @@ func RunHarness(prog *ssa.Program, fn *ssa.Function, cfg *HarnessConfig) *Harnes
 				active--
 				hr.Paths++
 				hr.Outcomes[res.Kind.String()]++
+				if res.Kind == oInfeasible && os.Getenv("VERIF_DEBUG_INFEASIBLE") != "" && hr.Outcomes["infeasible"] < 6 {
+					fmt.Fprintf(os.Stderr, "INFEASIBLE %s at %s [%s]\n", res.Msg, res.Stack, res.Trace)
+				}
 				hr.Asserts += res.Asserts
 				hr.SymAsserts += res.SymAsserts
 				if res.SymAsserts > 0 {
@@ -272,7 +275,11 @@ func RunHarness(prog *ssa.Program, fn *ssa.Function, cfg *HarnessConfig) *Harnes
 						stop = true // enough counterexamples: the check fails anyway
 					}
 				case oUnsupported, oUnknown, oEngineError:
-					hr.Inconclusive = append(hr.Inconclusive, fmt.Sprintf("%s: %s [path %s]", res.Kind, res.Msg, res.Trace))
+					msg := res.Msg
+					if len(msg) > 400 {
+						msg = msg[:400] + "…"
+					}
+					hr.Inconclusive = append(hr.Inconclusive, fmt.Sprintf("%s: %s [path %s]", res.Kind, msg, res.Trace))
 					if len(hr.Inconclusive) > 20 {
 						stop = true
 					}
